@@ -377,4 +377,26 @@ class SelectShim:
             if sock.fileno() < 0:
                 raise ValueError("file descriptor cannot be a negative integer (-1)")
             wready.append(sock)
+        if not rready and not wready and rlist and (timeout is None or timeout > 0):
+            # nothing is ready: select() really waits - until something arrives on (or happens to) the first socket, or the
+            # timeout elapses (None: for ever).  A socket closed by another thread meanwhile is an error for the waiter.
+            sock = rlist[0]
+            sim = sock.sim
+            rec = sim._rec_of_current()  # pylint: disable=protected-access
+            sock.reader = rec
+            t0 = sim.now
+            reason = sim.block(("select",), timeout)
+            if sock.reader is rec:
+                sock.reader = None
+            if reason == "closed":
+                # close() in another thread does not interrupt a select() that is already waiting on the descriptor: it sits
+                # out its timeout (for ever, without one) and then finds the descriptor gone
+                left = None if timeout is None else max(0.0, timeout - (sim.now - t0))
+                if left is None or left > 0:
+                    sim.block(("select",), left)
+            for sock in rlist:
+                if sock.fileno() < 0:
+                    raise ValueError("file descriptor cannot be a negative integer (-1)")
+                if sock.readable():
+                    rready.append(sock)
         return rready, wready, []
